@@ -307,6 +307,29 @@ def r06_2(ck):
                         comb = A.call_name(x)
             else:
                 comb = 'assoc_path'
+            if comb not in ('deep_merge_multi_update', 'deep_merge',
+                            'deep_merge_check', 'assoc_path', None):
+                pass
+            if comb is None and A.call_name(c) == 'update_in':
+                # the combiner may be chosen first and called through a
+                # local: every choice made with multi_updates on must be
+                # the collision-preserving merge
+                fn2 = A.arg_of(c, 2, 'f')
+                called = {A.call_name(x) for x in ast.walk(fn2)
+                          if isinstance(x, ast.Call)} if fn2 is not None \
+                    else set()
+                for nm in sorted(called):
+                    ds = [d for d in local_defs(f.node).get(nm, [])
+                          if d.kind == 'assign' and isinstance(
+                              d.value, ast.Name)]
+                    if not ds:
+                        continue
+                    on = [d for d in ds if ('falsy', 'multi_updates')
+                          not in cfg.guards(cfg.node(d.stmt))]
+                    comb = 'deep_merge_multi_update' if on and all(
+                        d.value.id == 'deep_merge_multi_update'
+                        for d in on) else (on[0].value.id if on else
+                                           'deep_merge')
             multi_off = ('falsy', 'multi_updates') in g
             # the place written to is the second argument of the call
             place = A.unparse(A.arg_of(c, 1)) if A.arg_of(c, 1) is not \
